@@ -170,6 +170,12 @@ func (x *X) StopExpanding() {
 
 // Explorer configuration and statistics.
 type Explorer struct {
+	// OnDiverge, when set, receives a failed determinism re-run (same choices, other
+	// observations) instead of aborting the worker: for checks whose executions are
+	// sequential and closed, a divergence means state of the code under test outlives
+	// an execution.
+	OnDiverge func(trace []int, what string)
+
 	MaxDev    int // deviation budget per execution
 	MaxPoints int // horizon on choice points per execution (0 = none)
 
@@ -330,12 +336,25 @@ func (e *Explorer) recheck(body Body, x *X, d uint64) {
 	x2 := &X{e: e, forced: full, stopAt: -1, pts: make([]point, 0, traceCap)}
 	d2 := body(x2, false)
 	e.Rechecks++
-	if d2 != d || len(x2.pts) != len(ns) {
-		Fatal("HARNESS-NONDETERMINISM: replay of %v gave digest %x (%d points), first run %x (%d points)", full, d2, len(x2.pts), d, len(ns))
+	diverged := func(format string, a ...interface{}) {
+		if e.OnDiverge != nil {
+			tr := make([]int, len(full))
+			for i, c := range full {
+				tr[i] = int(c)
+			}
+			e.OnDiverge(tr, fmt.Sprintf(format, a...))
+			return
+		}
+		Fatal("HARNESS-NONDETERMINISM: "+format, a...)
 	}
-	for i := range ns {
-		if x2.pts[i].n != ns[i] {
-			Fatal("HARNESS-NONDETERMINISM: point %d has %d alternatives on replay, %d before (trace %v)", i, x2.pts[i].n, ns[i], full)
+	if d2 != d || len(x2.pts) != len(ns) {
+		diverged("replay of %v gave digest %x (%d points), first run %x (%d points)", full, d2, len(x2.pts), d, len(ns))
+	} else {
+		for i := range ns {
+			if x2.pts[i].n != ns[i] {
+				diverged("point %d has %d alternatives on replay, %d before (trace %v)", i, x2.pts[i].n, ns[i], full)
+				break
+			}
 		}
 	}
 	x.forced = savedForced
